@@ -1,5 +1,5 @@
 // govc:pkg .
-// govc:bound HAVING: 5 aggregates x 2 columns x {>,<,>=} x 3 thresholds singly, and 40 AND/OR pairs of unselected aggregates (about 130 queries; every third one beside a compound SELECT item); SELECT items: 12 item shapes (incl. parenthesised literal operands) x aggregates {sum,avg,min,max,count} x columns {v,w} x operators {+,-,*,/} x literals {2,0.5,32} on one fixed batch of 3 groups x 3 rows (about 700 queries)
+// govc:bound HAVING: 5 aggregates x 2 columns x {>,<,>=} x 3 thresholds singly, and 40 AND/OR pairs of unselected aggregates (about 130 queries; every third one beside a compound SELECT item); SELECT items: 12 item shapes (incl. parenthesised literal operands) plus 9 items using one aggregate twice over swapped operands x aggregates {sum,avg,min,max,count} x columns {v,w} x operators {+,-,*,/} x literals {2,0.5,32} on one fixed batch of 3 groups x 3 rows (about 700 queries)
 // Bounded stand-in (NOT a proof): SELECT items that combine aggregate calls, literals and arithmetic, executed through
 // the real engine (Execute / Emit / sync sink) against a relational oracle computed from the same rows. The classification
 // and rewriting of such items (rsql/ast.go, aggregator/post_aggregation.go) is regular-expression based and outside the
@@ -108,6 +108,39 @@ func govcItems() []govcItem {
 				out = append(out, govcItem{fmt.Sprintf("%s(v*2) %s 1", a, op), govcBin(op, govcAgg(a, "v", 2), govcLit(1))})
 			}
 		}
+	}
+	// the same aggregate twice over arguments that are permutations of each other (swapped operands, anagram columns)
+	rowExpr := func(name string, f func(v, w float64) float64) govcVal {
+		return func(rows []map[string]any) float64 {
+			var xs []float64
+			for _, r := range rows {
+				xs = append(xs, f(r["v"].(float64), r["w"].(float64)))
+			}
+			switch name {
+			case "MAX":
+				m := xs[0]
+				for _, x := range xs {
+					m = math.Max(m, x)
+				}
+				return m
+			case "MIN":
+				m := xs[0]
+				for _, x := range xs {
+					m = math.Min(m, x)
+				}
+				return m
+			}
+			s := 0.0
+			for _, x := range xs {
+				s += x
+			}
+			return s
+		}
+	}
+	for _, a := range []string{"SUM", "MAX", "MIN"} {
+		out = append(out, govcItem{a + "(v-w) + " + a + "(w-v)", govcBin("+", rowExpr(a, func(v, w float64) float64 { return v - w }), rowExpr(a, func(v, w float64) float64 { return w - v }))})
+		out = append(out, govcItem{a + "(v/w) - " + a + "(w/v)", govcBin("-", rowExpr(a, func(v, w float64) float64 { return v / w }), rowExpr(a, func(v, w float64) float64 { return w / v }))})
+		out = append(out, govcItem{a + "(v-w) * 2 + " + a + "(w-v)", govcBin("+", govcBin("*", rowExpr(a, func(v, w float64) float64 { return v - w }), govcLit(2)), rowExpr(a, func(v, w float64) float64 { return w - v }))})
 	}
 	return out
 }
